@@ -10,6 +10,7 @@ import (
 	"sort"
 	"strings"
 	"sync/atomic"
+	"syscall"
 	"time"
 
 	"github.com/tyler-sommer/stick"
@@ -238,6 +239,23 @@ func (p *c19) Run(i int) (res fw.Result) {
 			old := time.Now().Add(-time.Duration(1+i%72) * time.Hour)
 			os.Chtimes(filepath.Join(dir, n), old, old)
 		}
+	}
+	// someone else is working on the templates: in every fourth history every file is open elsewhere and locked
+	// (advisory locks, exclusive and shared ones alternating) - nobody's business but the lock holders'
+	if i%4 == 2 {
+		k := 0
+		for n := range h.files {
+			if f, err := os.OpenFile(filepath.Join(dir, n), os.O_RDWR, 0); err == nil {
+				how := syscall.LOCK_EX
+				if k%3 == 2 {
+					how = syscall.LOCK_SH
+				}
+				syscall.Flock(int(f.Fd()), how|syscall.LOCK_NB)
+				defer f.Close()
+				k++
+			}
+		}
+		res.AddObs("files_locked_elsewhere", int64(k))
 	}
 	// symbolic links: to a file and to a directory outside the loader's root, to a file inside it, and to nothing
 	outside := dir + "-outside"
